@@ -411,4 +411,49 @@ theorem whileLoop_fuel {s : Fetcher} (h : Out.exc .fuel ∉ s.out) (fuel : Nat) 
     · intro s h _ _; exact h
   exact key fuel s hf h
 
+/-- the fetcher's half of the finder contract: a `_do_loop` pass that leaves the fetcher running, not
+yet told `no_more_shares`, and with no block request outstanding has called `want_more_shares()` -/
+theorem whileLoop_asks {s : Fetcher} (h1 : ∀ x ∈ s.active, x ∈ s.outstanding) (hr : s.running = true)
+    (fuel : Nat) (hf : mu s < fuel) :
+    (whileLoop fuel s).running = true → (whileLoop fuel s).noMore = false → (whileLoop fuel s).outstanding = [] →
+    Out.wantMore ∈ (whileLoop fuel s).out := by
+  have key : ∀ fuel s, mu s < fuel → ((∀ x ∈ s.active, x ∈ s.outstanding) ∧ s.running = true) →
+      ((whileLoop fuel s).running = true → (whileLoop fuel s).noMore = false → (whileLoop fuel s).outstanding = [] →
+        Out.wantMore ∈ (whileLoop fuel s).out) := by
+    apply whileLoop_ind (P := fun s => (∀ x ∈ s.active, x ∈ s.outstanding) ∧ s.running = true)
+      (Q := fun s' => s'.running = true → s'.noMore = false → s'.outstanding = [] → Out.wantMore ∈ s'.out)
+    · intro s sh w hP _ _
+      refine ⟨?_, hP.2⟩
+      intro x hx
+      simp only [useShare, List.mem_append, List.mem_singleton] at hx
+      simp only [useShare]
+      rcases hx with hx | hx
+      · exact mem_insertSet.mpr (Or.inl (hP.1 x hx))
+      · exact mem_insertSet.mpr (Or.inr hx)
+    · intro s hP _
+      have e := askMore_eq { s with maxPerServer := s.maxPerServer + 1 }
+      refine ⟨?_, ?_⟩
+      · rw [e.2.2.2.1, e.2.1]; exact hP.1
+      · rw [e.2.2.2.2.2.2.2.1]; exact hP.2
+    · intro s hP _ _ _ _ hrun
+      simp [noSharesError, stop, hP.2] at hrun
+    · intro s _ _ _ _ _ hnm _
+      have e := askMore_eq s
+      rw [e.2.2.2.2.2.2.1] at hnm
+      simp [askMore, hnm]
+    · intro s hP _ _ hrun
+      simp [deliver, stop, hP.2] at hrun
+    · intro s hP hge hk _ _ hout
+      exfalso
+      have hact : s.active = [] := by
+        cases ha : s.active with
+        | nil => rfl
+        | cons a l =>
+          have := hP.1 a (by simp [ha])
+          simp [hout] at this
+      have : activeKeys s = [] := by simp [activeKeys, hact]
+      simp [this] at hge
+      omega
+  exact key fuel s hf ⟨h1, hr⟩
+
 end Tahoe.Fetch
